@@ -18,15 +18,21 @@ func Scenarios(thorough bool) map[string]*Scenario {
 		"Q02": {ID: "Q02", Kind: "CloneSet", Style: "partition", Replicas: 3, Traffic: "ingress", Grace: 1,
 			Steps: []StepSpec{{Replicas: "1", Traffic: "20%"}, {Replicas: "100%"}}},
 	}
+	// two traffic steps with different replicas (a step jump must not route step k's traffic before its pods)
+	m["Q02b"] = &Scenario{ID: "Q02b", Kind: "CloneSet", Style: "partition", Replicas: 3, Traffic: "ingress", Grace: 1,
+		Steps: []StepSpec{{Replicas: "1", Traffic: "20%"}, {Replicas: "2", Traffic: "50%"}, {Replicas: "100%"}}}
+	// mixed plan: an absolute step followed by percentage steps
+	m["Q01c"] = &Scenario{ID: "Q01c", Kind: "CloneSet", Style: "partition", Replicas: 4,
+		Steps: []StepSpec{{Replicas: "1"}, {Replicas: "50%"}, {Replicas: "100%"}}}
 	// Deployment canary style (extra canary Deployment) + nginx Ingress; last step covers all replicas with traffic
 	m["Q05"] = &Scenario{ID: "Q05", Kind: "Deployment", Style: "canary", Replicas: 3, Traffic: "ingress", Grace: 1,
 		Steps: []StepSpec{{Replicas: "1", Traffic: "20%"}, {Replicas: "3", Traffic: "50%"}}}
 	// Deployment partition style (the repository's advanced Deployment controller drives the ReplicaSets)
-	m["Q07"] = &Scenario{ID: "Q07", Kind: "Deployment", Style: "partition", Replicas: 4,
-		Steps: []StepSpec{{Replicas: "25%"}, {Replicas: "50%"}, {Replicas: "100%"}}}
+	m["Q07"] = &Scenario{ID: "Q07", Kind: "Deployment", Style: "partition", Replicas: 3,
+		Steps: []StepSpec{{Replicas: "34%"}, {Replicas: "100%"}}}
 	// Deployment blue-green + nginx Ingress
-	m["Q08"] = &Scenario{ID: "Q08", Kind: "Deployment", Style: "bluegreen", Replicas: 3, Traffic: "ingress", Grace: 1,
-		Steps: []StepSpec{{Replicas: "100%", Traffic: "0%"}, {Replicas: "100%", Traffic: "50%"}, {Replicas: "100%", Traffic: "100%"}}}
+	m["Q08"] = &Scenario{ID: "Q08", Kind: "Deployment", Style: "bluegreen", Replicas: 2, Traffic: "ingress", Grace: 1,
+		Steps: []StepSpec{{Replicas: "100%", Traffic: "0%"}, {Replicas: "100%", Traffic: "100%"}}}
 	if thorough {
 		m["Q01"].Replicas = 5
 		m["Q01"].Steps = []StepSpec{{Replicas: "20%"}, {Replicas: "60%"}, {Replicas: "100%"}}
@@ -62,30 +68,30 @@ func Plans(thorough bool) map[string]PropertyPlan {
 		u = 2
 	}
 	return map[string]PropertyPlan{
-		"C01": {Scenarios: []string{"Q01", "Q01b"}, Actions: []string{"scaleUp", "scaleDown", "editPlanInts", "editPlanMore", "jump(1)", "jump(3)", "pause", "resume"}, MaxUser: u,
+		"C01": {Scenarios: []string{"Q01", "Q01b", "Q01c", "Q05", "Q07", "Q08"}, Actions: []string{"scaleUp", "scaleDown", "editPlanInts", "editPlanMore", "jump(1)", "jump(3)", "pause", "resume"}, MaxUser: u,
 			FreeQueues: true, StateCap: capQ, Monitors: func(w *World, sc *Scenario) []Monitor { return []Monitor{ExposureMonitor{}} }},
-		"C02": {Scenarios: []string{"Q01", "Q01b"}, Actions: []string{"pause", "resume", "editPlanMore"}, MaxUser: u, Disturbances: []string{"crash", "midcrash"}, MaxDisturb: 1,
+		"C02": {Scenarios: []string{"Q01", "Q01b", "Q05", "Q08"}, Actions: []string{"pause", "resume", "editPlanMore"}, MaxUser: u, Disturbances: []string{"crash", "midcrash"}, MaxDisturb: 1,
 			FreeQueues: true, StateCap: capQ, Monitors: func(w *World, sc *Scenario) []Monitor { return []Monitor{StepMonitor{}} }},
-		"C11": {Scenarios: []string{"Q01", "Q01b"}, Actions: []string{"scaleUp", "scaleDown", "editPlanMore", "degrade"}, MaxUser: u,
+		"C11": {Scenarios: []string{"Q01", "Q01b", "Q05", "Q07", "Q08"}, Actions: []string{"scaleUp", "scaleDown", "editPlanMore", "degrade"}, MaxUser: u,
 			FreeQueues: true, StateCap: capQ, Monitors: func(w *World, sc *Scenario) []Monitor { return []Monitor{BatchStatusMonitor{}} }},
-		"C03": {Scenarios: []string{"Q02"}, Actions: []string{"jump(2)", "jump(1)", "editPlanMore", "scaleUp"}, MaxUser: u,
+		"C03": {Scenarios: []string{"Q02", "Q02b", "Q05", "Q08"}, Actions: []string{"jump(2)", "jump(3)", "jump(1)", "editPlanMore", "scaleUp"}, MaxUser: u,
 			FreeQueues: true, StateCap: capQ, Monitors: func(w *World, sc *Scenario) []Monitor { return []Monitor{TrafficOrderMonitor{}} }},
-		"C04": {Scenarios: []string{"Q02"}, Actions: []string{"rollback", "release3", "disable", "deleteRollout", "jump(2)"}, MaxUser: u, Disturbances: []string{"crash"}, MaxDisturb: 1,
+		"C04": {Scenarios: []string{"Q02", "Q05", "Q08"}, Actions: []string{"rollback", "release3", "disable", "deleteRollout", "jump(2)"}, MaxUser: u, Disturbances: []string{"crash"}, MaxDisturb: 1,
 			FreeQueues: true, StateCap: capQ, Monitors: func(w *World, sc *Scenario) []Monitor { return []Monitor{VoidMonitor{}} }},
-		"C10": {Scenarios: []string{"Q02"}, Actions: []string{"rollback", "release3"}, MaxUser: 1, Disturbances: []string{"crash", "midcrash"}, MaxDisturb: 1,
+		"C10": {Scenarios: []string{"Q02", "Q05", "Q08"}, Actions: []string{"rollback", "release3"}, MaxUser: 1, Disturbances: []string{"crash", "midcrash"}, MaxDisturb: 1,
 			FreeQueues: true, StateCap: capQ, Monitors: func(w *World, sc *Scenario) []Monitor { return []Monitor{RollbackOrderMonitor{}} }},
-		"C05": {Scenarios: []string{"Q02", "Q01b"}, Actions: []string{"rollback", "disable", "deleteRollout", "editPlanMore"}, MaxUser: u,
+		"C05": {Scenarios: []string{"Q02", "Q01b", "Q05", "Q08"}, Actions: []string{"rollback", "disable", "deleteRollout", "editPlanMore"}, MaxUser: u,
 			FreeQueues: true, StateCap: capQ, Monitors: func(w *World, sc *Scenario) []Monitor { return []Monitor{&ExitMonitor{Base: CaptureBaseline(w, sc)}} }},
-		"C18": {Scenarios: []string{"Q02", "Q01b"}, Actions: []string{"deleteRollout"}, MaxUser: 1, Disturbances: []string{"crash", "midcrash", "error"}, MaxDisturb: 1,
+		"C18": {Scenarios: []string{"Q02", "Q01b", "Q05"}, Actions: []string{"deleteRollout", "deleteWorkload"}, MaxUser: 2, Disturbances: []string{"crash", "midcrash", "error"}, MaxDisturb: 1,
 			FreeQueues: true, StateCap: capQ, Monitors: func(w *World, sc *Scenario) []Monitor { return []Monitor{FinalizerMonitor{}} }},
-		"C07": {Scenarios: []string{"Q01", "Q01b", "Q02"}, Actions: nil, MaxUser: 0,
+		"C07": {Scenarios: []string{"Q01", "Q01b", "Q01c", "Q02", "Q05", "Q07", "Q08"}, Actions: nil, MaxUser: 0,
 			FreeQueues: false, Liveness: true, StateCap: capQ, Monitors: func(w *World, sc *Scenario) []Monitor { return []Monitor{PanicMonitor{}} }},
 		"C06": {Scenarios: []string{"Q02", "Q01b"}, Actions: nil, MaxUser: 0, Disturbances: []string{"crash", "midcrash", "error", "conflict"}, MaxDisturb: 1,
 			FreeQueues: true, StateCap: capQ, Relabel: true, LiveScenarios: []string{"Q01b"},
 			Monitors: func(w *World, sc *Scenario) []Monitor {
 				return []Monitor{ExposureMonitor{}, StepMonitor{}, BatchStatusMonitor{}, TrafficOrderMonitor{}, VoidMonitor{}, &ExitMonitor{Base: CaptureBaseline(w, sc)}, FinalizerMonitor{}, PanicMonitor{}, OnceMonitor{}}
 			}},
-		"C09": {Scenarios: []string{"Q01", "Q01b"}, Actions: []string{"jump(-1)", "jump(0)", "jump(1)", "jump(2)", "jump(3)", "jump(4)", "jump(2147483647)"}, MaxUser: 1,
+		"C09": {Scenarios: []string{"Q01", "Q01b", "Q05", "Q08"}, Actions: []string{"jump(-1)", "jump(0)", "jump(1)", "jump(2)", "jump(3)", "jump(4)", "jump(2147483647)", "dropLastStep", "deleteRollout", "disable"}, MaxUser: 2,
 			FreeQueues: true, StateCap: capQ, Monitors: func(w *World, sc *Scenario) []Monitor { return []Monitor{PanicMonitor{}} }},
 	}
 }
